@@ -323,6 +323,12 @@ func (s *BaseNodeService) verifyMessage(fsmInstance *state_machines.FSMInstance,
 		return fmt.Errorf("failed to GetPubKeyByUsername: %w", err)
 	}
 
+	// ed25519.Verify panics on a key of any other length; the key comes from an
+	// opening proposal or a reinit message, which nobody authenticates
+	if len(senderPubKey) != ed25519.PublicKeySize {
+		return fmt.Errorf("registered public key of %s has a bad length: %d", message.SenderAddr, len(senderPubKey))
+	}
+
 	if !ed25519.Verify(senderPubKey, message.Bytes(), message.Signature) {
 		return errors.New("signature is corrupt")
 	}
